@@ -168,6 +168,22 @@ func c12Cases(tier string) []c12Case {
 			}
 		}
 	}
+	if tier == "thorough" {
+		// every set of three harmless (non-dangerous) declarations as well
+		var safe []string
+		for _, d := range decls {
+			if !d.Protected {
+				safe = append(safe, d.ID)
+			}
+		}
+		for i := range safe {
+			for j := i + 1; j < len(safe); j++ {
+				for k := j + 1; k < len(safe); k++ {
+					sets = append(sets, []string{safe[i], safe[j], safe[k]})
+				}
+			}
+		}
+	}
 	full := 1<<len(c12Paths) - 1
 	masks := []int{full, 0}
 	for i := range c12Paths {
